@@ -212,13 +212,17 @@ def call_shapes():
         # one TdmsTimestamp instance used as a property value and changed in place (public attributes) between calls
         [['R*'], C('g', 'a', 0, 1)],
         [['R*']],
+        # one ChannelObject instance written again after being renamed (.channel / .group are public attributes) and refilled
+        [['C@', 'g', 'a', 0, 1, 0]],
+        [['C@', 'g', 'b', 1, 3, 0]],
+        [['C@', 'h', 'a', 1, 1, 0]],
     ]
     return shapes
 
 
 def expect_rejected(shape):
     """call shapes built to be refused by the writer: duplicate paths, property values it cannot encode"""
-    paths = [tuple(o[1:3]) for o in shape if o[0] in ('C', 'C*')]
+    paths = [tuple(o[1:3]) for o in shape if o[0] in ('C', 'C*', 'C@')]
     return len(paths) != len(set(paths)) or any(o[-1] in (7, 8) for o in shape if len(o) > 1)
 
 
@@ -282,6 +286,17 @@ def build_objects(call, assign, counters, instances=None):
             inp, t, vals = build_data(kind, n, k)
             counters[key] = k + n
             menu = prop_menu(m)
+            if _c == 'C@':
+                if not isinstance(inp, np.ndarray) or inp.dtype.kind in 'OMU':
+                    raise Skip('instance reuse is exercised with plain numeric arrays only')
+                obj = instances.get('C@')
+                if obj is None:
+                    obj = instances['C@'] = ChannelObject(GROUPS[g], c, inp)
+                else:
+                    obj.group, obj.channel, obj.data = GROUPS[g], c, inp
+                objs.append(obj)
+                model.append((('c', GROUPS[g], c), (kind, t, vals), []))
+                continue
             if _c == 'C*':
                 if not isinstance(inp, np.ndarray) or inp.dtype.kind in 'OMU':
                     raise Skip('instance reuse is exercised with plain numeric arrays only')
